@@ -252,7 +252,8 @@ def check(col: Collector, tier: str):
                         return False
 
                     for cur_side, other in ((raw[0], raw[1]), (raw[1], raw[0])):
-                        if is_current(cur_side) and isinstance(other, ast.Name) and not is_current(other):
+                        if is_current(cur_side) and isinstance(other, ast.Name) and src(other) != src(cur_side) and \
+                                (src(cur_side) == f"{u}.parent" or not is_current(other)):
                             # the other side is the remembered first directory: assigned from the current parent in the loop
                             rem = [n for n in ast.walk(lp) if isinstance(n, ast.Assign) and src(n.targets[0]) == other.id
                                    and (is_current(n.value))]
